@@ -106,20 +106,28 @@ def wordAttrs (w : PWord) : List AttrChar := w.expand.map PAttrChar.reduce
 /-- case.rs `matches` / trim.rs `apply`: `to_pattern_chars(&{ apply_escapes(&mut pattern); pattern })` -/
 def patternOfWord (w : PWord) : List PatternChar := toPatternChars (applyEscapes (wordAttrs w))
 
-/-! ### `apply_escapes` as the index loop it is in attr_fnmatch.rs (`applyEscapes` of Model.lean is the equivalent
-    recursion: `applyEscapesIdx_eq`, WordLemmas.lean) -/
+/-! ### `apply_escapes` as the index loop it is in attr_fnmatch.rs (after fix 9da0f0e; `applyEscapes` of Model.lean is
+    the equivalent recursion: `applyEscapesIdx_eq`, WordLemmas.lean) -/
 
-/-- one iteration of the loop of `apply_escapes` (`for j in 1..chars.len()`, `let i = j - 1`) on the slice as a list -/
-def escStep (cs : List AttrChar) (j : Nat) : List AttrChar :=
-  match cs[j - 1]?, cs[j]? with
-  | some a, some b =>
-    if a.value = '\\' ∧ a.isQuoting = false ∧ a.isQuoted = false then
-      (cs.set (j - 1) { a with isQuoting := true }).set j { b with isQuoted := true }
+/-- `chars[i + 1..].iter().position(|c| !c.is_quoting)` followed by `chars[i + 1 + offset].is_quoted = true`, on the
+    slice `chars[i + 1..]`: the first character that is not a quoting character becomes quoted -/
+def markFirst : List AttrChar → List AttrChar
+  | [] => []
+  | c :: t => if c.isQuoting then c :: markFirst t else { c with isQuoted := true } :: t
+
+/-- one iteration of `for i in 0..chars.len()`: an unquoted non-quoting backslash at `i` with a non-quoting
+    character somewhere after it (`if let Some(offset) = next`) becomes quoting and that character quoted -/
+def escStep (cs : List AttrChar) (i : Nat) : List AttrChar :=
+  match cs[i]? with
+  | some a =>
+    if a.value = '\\' ∧ a.isQuoting = false ∧ a.isQuoted = false ∧
+        (cs.drop (i + 1)).any (fun c => !c.isQuoting) = true then
+      cs.take i ++ { a with isQuoting := true } :: markFirst (cs.drop (i + 1))
     else cs
-  | _, _ => cs
+  | none => cs
 
 /-- `apply_escapes` as the index loop the Rust code is -/
 def applyEscapesIdx (cs : List AttrChar) : List AttrChar :=
-  (List.range' 1 (cs.length - 1)).foldl escStep cs
+  (List.range' 0 cs.length).foldl escStep cs
 
 end YashModel.Fnmatch
